@@ -122,6 +122,32 @@ def main():
                                    ", ".join(caught) if caught else ("**not caught**" if runs else "not run"),
                                    ", ".join(conc) if conc else ("—" if caught else "")))
     w("")
+    w("### 11.3b Property-preserving changes (written by independent sub-agents from the property text only): the checks must stay silent\n")
+    w("Each `seeded_harmless/<id>_h<k>/` holds `patch.diff`, `meta.json` (kind: refactoring / incidental behaviour / hardening, the "
+      "author's argument why the property still holds, the observable differences) and `result.json` (test-suite result with the "
+      "patch; outcome of `tools/mutant_run.sh <patch> <check>` for the property's own check and for the neighbouring checks that "
+      "were also run). Re-run with `tools/harmless_recheck.sh <id>_h<k> [checks]`.\n")
+    w("| change | kind | what it does | checks run | outcome |")
+    w("|---|---|---|---|---|")
+    nh = ns = 0
+    for d in sorted(glob.glob("seeded_harmless/C??_h*")):
+        name = os.path.basename(d)
+        if not os.path.exists(os.path.join(d, "result.json")):
+            continue
+        meta = json.load(open(os.path.join(d, "meta.json")))
+        r = json.load(open(os.path.join(d, "result.json")))
+        runs = r.get("runs") or []
+        loud = [x for x in runs if not x.get("silent")]
+        nh += 1
+        ns += 0 if loud or not runs else 1
+        summ = (meta.get("summary") or "").replace("|", "\\|").replace("\n", " ")
+        out = "silent" if runs and not loud else ("not run" if not runs else "; ".join(
+            "%s: VIOLATION (%s)" % (x["check"], "no-failing-input-found" if x.get("no_failing_input_found") == x.get("violation_lines")
+                                    else "**concrete replay: false alarm**") for x in loud))
+        w("| %s | %s | %s | %s | %s |" % (name, meta.get("kind", ""), summ[:200] + ("…" if len(summ) > 200 else ""),
+                                        ", ".join(x["check"] for x in runs), out))
+    w("")
+    w("%d of %d property-preserving changes leave every check that was run against them silent.\n" % (ns, nh))
     w("### 11.4 Trusted base as built\n")
     w("* **Kernel**: `coqc` 8.16.1; every property file is a full `.vo` build (`make`, never `-vos`); the thorough tier re-checks "
       "`Props/Cxx.vo` and everything it depends on with `coqchk -o` (reports: no axioms, no type-in-type, no unsafe fixpoints, no "
@@ -129,7 +155,9 @@ def main():
       "and to run the models in the correspondence files; no `native_compute`. No `Axiom`/`Parameter`/`Admitted`/`admit` anywhere "
       "(scanned on every run over the dependency closure of the property; whole development: clean). Libraries imported: Coq stdlib "
       "`List Arith NArith ZArith Bool Lia String Ascii` only; `Print Assumptions` under every property theorem: Closed under the global context.")
-    w("* **Extractors** (`tools/gen/*.py`, Python `ast`, fail closed) and the **correspondence harnesses / oracles** (`tools/harness/*.py`, "
+    w("* **Extractors** (`tools/gen/*.py`: Python `ast` readers, fail closed; where a plugin says so, a second reader that imports the "
+      "module from the tree under test and reads a value constant or measures a structural fact by driving the real function with "
+      "recording stubs, used when the `ast` shape is not recognised: `info[\"mode\"]` in the evidence says which reader ran) and the **correspondence harnesses / oracles** (`tools/harness/*.py`, "
       "`tools/lib/*.py`): trusted to read the source / drive the implementation correctly; differential testing bounded by generator "
       "quality (the evidence prints the input distribution). No extraction to OCaml is used.")
     w("* **Modelled, not verified** (assumptions each check states in its evidence file):\n")
